@@ -7,7 +7,7 @@ S='/verif/seeded'
 re_run={}
 if len(sys.argv)>1:
     for l in open(sys.argv[1]):
-        m=re.match(r'(\S+) (CAUGHT|MISSED|NOAPPLY|BROKEN\S*)(?: rc=\d+)? ?(?:keys=\[(.*)\])?',l.strip())
+        m=re.match(r'(\S+) (CAUGHT|MISSED|NOAPPLY|OBSOLETE|BROKEN\S*)(?: rc=\d+)? ?(?:keys=\[(.*)\])?',l.strip())
         if m: re_run[m.group(1)]=(m.group(2),m.group(3) or '')
 def cut(s,n):
     s=' '.join(s.split())
@@ -28,6 +28,8 @@ for d in sorted(os.listdir(S)):
     if d in re_run:
         v,k=re_run[d]
         cb=d.split('-')[0] if v=='CAUGHT' else f'**{v}**'
+        if v=='CAUGHT' and os.path.exists(f'{S}/{d}/checks'): cb=open(f'{S}/{d}/checks').read().split()[0]+' (another property\'s check)'
+        if v=='OBSOLETE': cb,keys='no longer a defect: '+cut(open(f'{S}/{d}/obsolete').read(),90),'(was: '+keys+')'
         if k: keys=k
     keys=', '.join(x for x in keys.split(',') if x)
     print(f"| {d} | {cut(am.get('title') or m.get('breaks',''),110)} | {cut(am.get('needs_to_manifest') or m.get('needs_to_manifest',''),120)} | {cb or '**none**'} | {cut(keys,110)} |")
